@@ -75,7 +75,9 @@ def make(rng, fixed=None):
         table = [(rng.choice([0, 1, 2, 3, 4, 5, 7, 1, 1]), rng.choice([0x1000, 0x2000, 0x2100, 0x3100, 0x4200, 0x5000, 0x6100, 0x8130, 0xFF00]) + i) for i in range(n)]
         depth = rng.choice([0, 1, 2, 3, 4, 8])
     cfg = Config(nodeid=nid, freq=1000, tmrnum=8)
-    gen.add_mandatory(cfg, hb=0, emcy_id=0x80, emcy_hist=depth, ssdo=1, ssdo_rw=False)
+    # one dictionary in ten has no EMCY COB-ID 1014h at all (the object is optional): error state and register work, no frame ever goes out
+    cfg.no1014 = (not fixed) and rng.random() < 0.1
+    gen.add_mandatory(cfg, hb=0, emcy_id=0x80, emcy_hist=depth, ssdo=1, ssdo_rw=False, with1014=not cfg.no1014)
     cfg.emcy = table
     cfg.finalize()
     return cfg, nid, table, depth
@@ -183,7 +185,7 @@ def do_op(sim, m, op, nid, fail, rng):
             m.hist = m.hist[:n]
         evs = [e for e in evs if not (e[0] == "tx" and int(e[2], 16) == 0x700 + nid)]
     elif k == "id":
-        if m.mode not in (2, 3):
+        if m.mode not in (2, 3) or getattr(sim.cfg, "no1014", False):
             return True
         v = op[1]
         code, evs = S.sdo_write(sim, nid, 0x1014, 0, v, 4)
@@ -212,7 +214,7 @@ def do_op(sim, m, op, nid, fail, rng):
 
 def run_history(res, sim, cfg, nid, table, depth, ops, rng, sample=False):
     sim.cmd("restart"); sim.cmd("start")
-    m = EModel(table, depth, nid, 0x80 + nid)
+    m = EModel(table, depth, nid, 0x80000000 if getattr(cfg, "no1014", False) else 0x80 + nid)
     script = []
     ok = [True]
 
